@@ -70,6 +70,9 @@ FIXED = {
     "fix: read partially defined CRC vectors as the format stores them": (["C06"], "partially defined folder/substream CRC vectors made the reader fail with 'end id expected'"),
     "fix: errors raised in worker processes (mp=True) reach the caller": (["C13", "C04"], "with mp=True a CRC error in a worker process was lost: damaged archive extracted 'successfully' with wrong bytes"),
     "fix: symlink members are checked against the links already extracted, not only lexically": (["C03"], "links 'a -> .' and 'a/b -> ..' let a later member 'b/x' be written outside the destination"),
+    "fix: a member name that reads as an absolute path once its './' marker is removed no longer escapes extraction into the current directory": (["C03"], "extractall() without a destination: a directory member named './/<absolute path>' was created at that absolute path (get_sanitized_output_path returned the marker-stripped name, not the path it had checked). Reported by a seeding sub-agent as present in the unmodified tree; the check had no './/abs' names. Names added; reproduced on the pre-fix tree"),
+    "fix: a regular or empty file member replaces a link left at its output path instead of being written through it": (["C03"], "link 'a -> b/../x' (passes the lexical check while 'b' does not exist), link 'b -> .', file './a': the file was written through the link and created/truncated <parent>/x. Reported by a seeding sub-agent; the check tried every archive under one destination configuration only and its 3-entry alphabet had no second spelling of a name. Respelled alphabet added; reproduced on the pre-fix tree"),
+    "fix: file times and modes are applied only to paths that still resolve inside the destination": (["C03"], "file 'b', link './b -> a/..', link 'a -> .': the post-extraction utime/chmod pass followed the link that replaced 'b' and re-timed and re-moded the parent of the destination. Reported by a seeding sub-agent; same gap in the check as above; reproduced on the pre-fix tree"),
     "fix: every extracted entry is checked against the links already on disk, not only link targets": (["C03"], "dangling link 'b -> a/..' followed by 'a -> .' made a later member 'a/b/c' land outside the destination (found by the thorough tier's random 4-entry archives)"),
     "fix: test() stops reading at the end of the file": (["C05"], "test() iterated (declared pack size / block size) times over an exhausted file"),
     "fix: reject a file count the header cannot possibly describe": (["C05"], "41-byte archive declaring 2^31 files allocated one record per declared file"),
